@@ -206,47 +206,70 @@ def _same_value(b, cfg, defs, i1, i2, bb1, bb2, loop):
 
 
 def _sources(b, oa, sc):
-    """Classify every definition that can flow into local sc."""
+    """Classify every definition that can flow into local sc (flow-insensitive, through copies, tuples and fields)."""
     defs = oa.defs
     out = []
     seen = set()
 
-    def visit(l):
-        if l in seen:
+    def operand(a, fp, bi):
+        if a.get('k') == 'const':
+            out.append(('other', 'constant at bb%d' % bi))
             return
-        seen.add(l)
+        if a['l'] == sc and not a['p'] and not fp:
+            out.append(('itself', bi))
+            return
+        visit(a['l'], tuple(field_path(a['p'])) + tuple(fp), bi)
+
+    def rvalue(rv, fp, bi):
+        if rv['r'] == 'use':
+            operand(rv['a'], fp, bi)
+        elif rv['r'] == 'aggr' and fp and rv.get('agg') in ('tuple', 'adt'):
+            names = rv.get('fields') or [str(i) for i in range(len(rv['ops']))]
+            idx = None
+            for i, n in enumerate(names):
+                if str(n) == fp[0] or str(i) == fp[0]:
+                    idx = i
+            if idx is None or idx >= len(rv['ops']):
+                out.append(('other', 'aggregate without field %s at bb%d' % (fp[0], bi)))
+            else:
+                operand(rv['ops'][idx], fp[1:], bi)
+        else:
+            out.append(('other', 'computed (%s) at bb%d' % (rv['r'], bi)))
+
+    def visit(l, fp, frm):
+        if (l, fp) in seen:
+            return
+        seen.add((l, fp))
+        if 1 <= l <= b.arg_count and not defs.of(l):
+            out.append(('other', 'parameter _%d' % l))
+            return
+        n = 0
         for (bi, si, kind, payload) in defs.of(l):
             if bi not in oa.cfg.reach:
                 continue
+            n += 1
             if kind == 'call':
-                out.append(('other', 'call result at bb%d' % bi))
-                continue
-            rv = payload
-            if rv['r'] != 'use':
-                out.append(('other', 'computed (%s) at bb%d' % (rv['r'], bi)))
-                continue
-            a = rv['a']
-            if a.get('k') == 'const':
-                out.append(('other', 'constant at bb%d' % bi))
-                continue
-            if a['l'] == sc and not a['p']:
-                out.append(('itself', bi))
-                continue
-            fp = field_path(a['p'])
-            if a['p']:
-                # payload of an Option local
-                base = a['l']
-                o = oa.tr.origin({'k': 'copy', 'l': base, 'p': []})
-                if o['o'] == 'call' and o['bb'] == oa.decision_bb and fp == ['0']:
-                    out.append(('accepted-payload', bi))
-                elif o['o'] == 'call' and is_trait_call(o['term'], 'State', 'score') and fp == ['0'] \
-                        and o['bb'] not in oa.inner['body']:
-                    out.append(('initial-score', bi))
+                if bi == oa.decision_bb and fp == ('0',):
+                    out.append(('accepted-payload', frm))
+                elif is_trait_call(payload, 'State', 'score') and fp == ('0',) and bi not in oa.inner['body']:
+                    out.append(('initial-score', frm))
                 else:
-                    out.append(('other', 'projection of _%d at bb%d' % (base, bi)))
+                    out.append(('other', 'call result at bb%d%s' % (bi, (' field ' + '.'.join(fp)) if fp else '')))
                 continue
-            visit(a['l'])
-    visit(sc)
+            rvalue(payload, fp, bi)
+        for (bi, si, pl, rv) in defs.pwrites.get(l, []):
+            if bi not in oa.cfg.reach:
+                continue
+            wp = tuple(field_path(pl['p']))
+            if fp[:len(wp)] == wp:
+                n += 1
+                if rv.get('r') in ('call', 'setdiscr'):
+                    out.append(('other', 'partial write by %s at bb%d' % (rv.get('r'), bi)))
+                else:
+                    rvalue(rv, fp[len(wp):], bi)
+        if n == 0:
+            out.append(('other', 'no definition of _%d found' % l))
+    visit(sc, (), None)
     return out
 
 
